@@ -1,8 +1,9 @@
-(* C04 — master playlist survives serialise -> parse.  The master writer has no state; proved at
-   item level: the tags it writes, read back in that order, rebuild the same value.  The text form
-   of each tag read back is open (sampled by the correspondence check; value layers in C18). *)
+(* C04 — master playlist survives serialise -> parse.  Proved at item level (the tags the writer
+   emits, read back in order, rebuild the value) and at text level (C04_text_roundtrip: the text
+   itself parses back to the value, every tag through the tokenizer and its own parser). *)
 From hls Require Import Base Float Lex Kinds Types Tags Line Keys Media Master.
-From hls.Proofs Require Import C04 Values Lexical.
+From hls.Generated Require Import Tables.
+From hls.Proofs Require Import C04 Values Lexical TextLines AttrText TagText TagTextMedia TagTextVariant MasterText.
 Open Scope N_scope.
 
 Theorem C04_items_roundtrip : forall p, validate_master p = true ->
@@ -53,3 +54,79 @@ u
   | _ => False
   end.
 Proof. vm_compute. split; reflexivity. Qed.
+
+(* ---------- text level ---------- *)
+(* The text the master writer produces for a well-formed, valid value parses back to that value.
+   `wf_master` is a decidable predicate on the value: strings without double quote / CR / LF,
+   integers inside their Rust types, enum indices inside the regenerated tables, keys without the
+   representational corners the text cannot carry, unknown tags that are unknown to the dispatch
+   chain — and, for the two float attributes (FRAME-RATE, TIME-OFFSET), that the modelled std
+   conversions give the float back (`ufloat_rt`, `float_rt`; e.g. frame rates with at most three
+   decimals).  Serialising the re-parsed value is then trivially byte-identical. *)
+Theorem C04_text_roundtrip : forall p, wf_master p = true -> validate_master p = true ->
+  parse_master (print_master p) = Ok p.
+Proof. exact master_text_roundtrip. Qed.
+Check C04_text_roundtrip : forall p, wf_master p = true -> validate_master p = true ->
+  parse_master (print_master p) = Ok p.
+Print Assumptions C04_text_roundtrip.
+
+Theorem C04_text_fixed_point : forall p p', wf_master p = true -> validate_master p = true ->
+  parse_master (print_master p) = Ok p' -> print_master p' = print_master p.
+Proof.
+  intros p p' Hw Hv H. rewrite (master_text_roundtrip p Hw Hv) in H. inversion H. reflexivity.
+Qed.
+Check C04_text_fixed_point : forall p p', wf_master p = true -> validate_master p = true ->
+  parse_master (print_master p) = Ok p' -> print_master p' = print_master p.
+Print Assumptions C04_text_fixed_point.
+
+(* every tag of a master playlist, written and read back through its own parser *)
+Theorem C04_tags_text :
+  (forall m, wf_xmedia m = true -> parse_xmedia (print_xmedia m) = Ok m)
+  /\ (forall u fr au su cc sd, wf_variant (VStreamInf u fr au su cc sd) = true ->
+        parse_streaminf (streaminf_line fr au su cc sd) u = Ok (VStreamInf u fr au su cc sd)
+        /\ print_variant (VStreamInf u fr au su cc sd) = streaminf_line fr au su cc sd ++ [10] ++ u)
+  /\ (forall u sd, wf_variant (VIFrame u sd) = true ->
+        parse_iframe (print_variant (VIFrame u sd)) = Ok (VIFrame u sd))
+  /\ (forall d, wf_sdata d = true -> parse_session_data (print_session_data d) = Ok d)
+  /\ (forall k, wf_key k = true -> parse_session_key (print_session_key k) = Ok k)
+  /\ (forall s, wf_start s = true -> parse_start (print_start s) = Ok s).
+Proof.
+  repeat split.
+  - intros m H. apply (xmedia_text m H).
+  - apply (streaminf_text u fr au su cc sd H).
+  - apply print_streaminf.
+  - intros u sd H. apply (iframe_text u sd H).
+  - intros d H. apply (session_data_text d H).
+  - intros k H. apply (session_key_text k H).
+  - intros s H. apply (start_text s H).
+Qed.
+Check C04_tags_text :
+  (forall m, wf_xmedia m = true -> parse_xmedia (print_xmedia m) = Ok m)
+  /\ (forall u fr au su cc sd, wf_variant (VStreamInf u fr au su cc sd) = true ->
+        parse_streaminf (streaminf_line fr au su cc sd) u = Ok (VStreamInf u fr au su cc sd)
+        /\ print_variant (VStreamInf u fr au su cc sd) = streaminf_line fr au su cc sd ++ [10] ++ u)
+  /\ (forall u sd, wf_variant (VIFrame u sd) = true ->
+        parse_iframe (print_variant (VIFrame u sd)) = Ok (VIFrame u sd))
+  /\ (forall d, wf_sdata d = true -> parse_session_data (print_session_data d) = Ok d)
+  /\ (forall k, wf_key k = true -> parse_session_key (print_session_key k) = Ok k)
+  /\ (forall s, wf_start s = true -> parse_start (print_start s) = Ok s).
+Print Assumptions C04_tags_text.
+
+(* the hypotheses are met by a parsed playlist with every kind of tag (floats included) *)
+Example C04_text_example :
+  match parse_master (lit "#EXTM3U
+#EXT-X-MEDIA:TYPE=AUDIO,GROUP-ID=""a"",NAME=""n"",LANGUAGE=""en"",DEFAULT=YES,AUTOSELECT=YES,CHANNELS=""2/JOC""
+#EXT-X-MEDIA:TYPE=CLOSED-CAPTIONS,GROUP-ID=""c"",NAME=""cc"",INSTREAM-ID=""SERVICE12""
+#EXT-X-STREAM-INF:BANDWIDTH=5,AVERAGE-BANDWIDTH=4,CODECS=""avc1.4d,mp4a"",RESOLUTION=640x360,HDCP-LEVEL=TYPE-0,AUDIO=""a"",CLOSED-CAPTIONS=""c"",FRAME-RATE=29.97
+http://x/low.m3u8
+#EXT-X-I-FRAME-STREAM-INF:URI=""i.m3u8"",BANDWIDTH=9
+#EXT-X-SESSION-DATA:DATA-ID=""d"",URI=""x"",LANGUAGE=""en""
+#EXT-X-SESSION-KEY:METHOD=AES-128,URI=""k"",IV=0x000102030405060708090a0b0c0d0e0f,KEYFORMAT=""com.example"",KEYFORMATVERSIONS=""1/2""
+#EXT-X-INDEPENDENT-SEGMENTS
+#EXT-X-START:TIME-OFFSET=-3.5,PRECISE=YES
+#EXT-X-FOO:bar
+") with
+  | Ok p => wf_master p = true /\ validate_master p = true /\ List.length (ma_variants p) = 2%nat
+  | _ => False
+  end.
+Proof. vm_compute. repeat split. Qed.
